@@ -93,8 +93,8 @@ impl Prop for C09 {
     }
     fn budget(&self, tier: Tier) -> u64 {
         match tier {
-            Tier::Quick => 400_000,
-            Tier::Thorough => 12_000_000,
+            Tier::Quick => 1_000_000,
+            Tier::Thorough => 16_000_000,
         }
     }
     fn required_labels(&self) -> Vec<&'static str> {
@@ -104,6 +104,19 @@ impl Prop for C09 {
             "resp_cc_1to5", "resp_cc_undefined", "req_cmd_01", "req_cmd_08", "req_cmd_unk", "resp_cmd_01", "resp_cmd_03",
             "resp_cmd_04", "resp_cmd_02", "with_history",
         ]
+    }
+    fn enumerate(&self, tier: Tier, shard: usize, nshards: usize, f: &mut dyn FnMut(Case)) {
+        let cfg = CtxCfg { addr: 0x5A, msg_types: vec![0x7E], vendors: vec![(1, 0x00C0FFEE, 9)] };
+        super::enumer::for_each_control_packet(tier, shard, nshards, &mut |bytes| f(Case { bytes, cfg: cfg.clone(), hist: vec![] }));
+        super::enumer::for_each_header_packet(shard, nshards, &mut |bytes| f(Case { bytes, cfg: cfg.clone(), hist: vec![] }));
+    }
+    fn enumerated_desc(&self, tier: Tier) -> Option<String> {
+        Some(format!(
+            "control messages behind a valid header: {} control bytes x all 256 command codes x completion codes {} x every data length 0..{} x PEC valid (and invalid for every third length); every value of the transport-header first byte x every message-type byte (65536 pairs) x 3 bodies",
+            if tier == Tier::Thorough { "all 256" } else { "10 representative" },
+            if tier == Tier::Thorough { "{0,1,2,3,4,5,6,0x80,0xFF}" } else { "{0,1,5,6,0xFF}" },
+            if tier == Tier::Thorough { 20 } else { 18 }
+        ))
     }
     fn run(&self, case: &Case) -> CaseResult {
         let mut r = CaseResult::default();
